@@ -20,21 +20,20 @@ theorem estimateGraphSize_pos : ∀ {shape : List Nat} {a b : List (List Nat)}, 
 
 theorem splitDim_safe {n : Nat} {oldc newc : List Nat} {gs limit : Nat} (ho : StageOK n oldc) (hgs : 0 < gs)
     (hle : gs ≤ limit) :
-    splitDim oldc newc gs limit ≠ .error .raised ∧
+    (∃ c, splitDim oldc newc gs limit = .ok c) ∧
       ∀ c, splitDim oldc newc gs limit = .ok c → maxL c ≤ maxL oldc := by
   have hlen : 0 < oldc.length := List.length_pos_iff.2 ho.1
   have hM : oldc.length ≤ oldc.length * limit / gs :=
     (Nat.le_div_iff_mul_le hgs).2 (Nat.mul_le_mul_left _ hle)
   unfold splitDim
   split
-  · exact ⟨by simp, fun c hc => by injection hc with hc; subst hc; exact Nat.le_refl _⟩
+  · exact ⟨⟨_, rfl⟩, fun c hc => by injection hc with hc; subst hc; exact Nat.le_refl _⟩
   · rw [if_neg (by omega)]
     simp only
     cases hm : mergeToNumberFull newc (oldc.length * limit / gs) with
     | error e =>
-      refine ⟨?_, fun c hc => by cases hc⟩
-      intro h; injection h with h; subst h
-      exact mergeToNumberFull_safe newc (by omega) hm
+      obtain ⟨r, hr⟩ := mergeToNumberFull_total newc (M := oldc.length * limit / gs) (by omega)
+      rw [hr] at hm; cases hm
     | ok c' =>
       obtain ⟨_, _, a3, a4⟩ := mergeToNumberFull_spec hm
       have hlen' : ¬ c'.length > oldc.length * limit / gs := by
@@ -45,8 +44,8 @@ theorem splitDim_safe {n : Nat} {oldc newc : List Nat} {gs limit : Nat} (ho : St
       rw [if_neg hlen']
       split
       · rename_i hc
-        exact ⟨by simp, fun c h => by injection h with h; subst h; exact hc.2⟩
-      · exact ⟨by simp, fun c h => by injection h with h; subst h; exact Nat.le_refl _⟩
+        exact ⟨⟨_, rfl⟩, fun c h => by injection h with h; subst h; exact hc.2⟩
+      · exact ⟨⟨_, rfl⟩, fun c h => by injection h with h; subst h; exact Nat.le_refl _⟩
 
 theorem largestBlockSize_append : ∀ (a b : List (List Nat)), largestBlockSize (a ++ b) = largestBlockSize a * largestBlockSize b
   | [], b => by simp [largestBlockSize_nil]
@@ -55,7 +54,7 @@ theorem largestBlockSize_append : ∀ (a b : List (List Nat)), largestBlockSize 
 
 theorem findSplitGo_safe (limit : Nat) (new : List (List Nat)) (shape : List Nat) (hnew : AllStage shape new) :
     ∀ (os dn ns : List (List Nat)) (s1 s2 : List Nat), s1 ++ s2 = shape → AllStage s1 dn → AllStage s2 os → AllStage s2 ns →
-      findSplitGo limit new dn os ns ≠ .error .raised ∧
+      (∃ r, findSplitGo limit new dn os ns = .ok r) ∧
         ∀ r, findSplitGo limit new dn os ns = .ok r → largestBlockSize r ≤ largestBlockSize (dn ++ os)
   | [], dn, ns, s1, s2, _, _, _, _ => by
     simp [findSplitGo]
@@ -71,12 +70,9 @@ theorem findSplitGo_safe (limit : Nat) (new : List (List Nat)) (shape : List Nat
       split
       · simp
       · rename_i hgt
-        obtain ⟨a1, a2⟩ := splitDim_safe (newc := n) (limit := limit) h2.1 hgs (by omega)
+        obtain ⟨⟨c0, a1⟩, a2⟩ := splitDim_safe (newc := n) (limit := limit) h2.1 hgs (by omega)
         cases hsd : splitDim o n (estimateGraphSize (dn ++ o :: os) new) limit with
-        | error e =>
-          simp only
-          refine ⟨?_, fun r hr => by cases hr⟩
-          intro h; injection h with h; subst h; exact a1 hsd
+        | error e => rw [a1] at hsd; cases hsd
         | ok c =>
           simp only
           have hc := splitDim_valid h2.1 h3.1 hsd
@@ -95,40 +91,37 @@ theorem findSplitGo_safe (limit : Nat) (new : List (List Nat)) (shape : List Nat
 
 theorem findSplit_safe {shape : List Nat} {old new : List (List Nat)} {limit : Nat} (ho : AllStage shape old)
     (hn : AllStage shape new) :
-    findSplit old new limit ≠ .error .raised ∧
+    (∃ r, findSplit old new limit = .ok r) ∧
       ∀ r, findSplit old new limit = .ok r → largestBlockSize r ≤ largestBlockSize old := by
   have := findSplitGo_safe limit new shape hn old [] new [] shape rfl trivial ho hn
   simpa [findSplit] using this
 
 theorem planPass_safe {shape : List Nat} {thr Lnum den gs : Nat} {new cur : List (List Nat)} {first : Bool} {ord : List Nat}
     (hc : AllStage shape cur) (hn : AllStage shape new) (hden : 0 < den) (hfit : largestBlockSize cur * den ≤ Lnum) :
-    planPass thr Lnum den new cur first gs ord ≠ .error .raised ∧
+    (∀ e, planPass thr Lnum den new cur first gs ord = .error e → e = .oracle) ∧
       ∀ c hit, planPass thr Lnum den new cur first gs ord = .ok (c, hit) → largestBlockSize c * den ≤ Lnum := by
   -- find_merge_rechunk on valid chunks that fit
   have key : ∀ (c0 : List (List Nat)), AllStage shape c0 → largestBlockSize c0 * den ≤ Lnum →
-      findMerge Lnum den c0 new ord ≠ .error .raised ∧
+      (∀ e, findMerge Lnum den c0 new ord = .error e → e = .oracle) ∧
         ∀ c hit, findMerge Lnum den c0 new ord = .ok (c, hit) → largestBlockSize c * den ≤ Lnum := by
     intro c0 h0 hf0
     cases hp : isPermOf ord (mergeCandidates c0 new) with
     | false =>
       have : findMerge Lnum den c0 new ord = .error .oracle := by simp [findMerge, hp]
       rw [this]
-      exact ⟨by simp, fun c hit h => by cases h⟩
+      exact ⟨fun e h => (by injection h with h; exact h.symm), fun c hit h => (by cases h)⟩
     | true =>
       obtain ⟨c, hit, h1, _, h3⟩ := findMerge_safe h0 hn hden hf0 hp
       rw [h1]
-      exact ⟨by simp, fun c' hit' h => by injection h with h; injection h with h _; subst h; exact h3⟩
+      exact ⟨fun e h => (by cases h), fun c' hit' h => (by injection h with h; injection h with h _; subst h; exact h3)⟩
   unfold planPass
   cases first with
   | true => simpa using key cur hc hfit
   | false =>
     simp only [Bool.false_eq_true, if_false]
-    obtain ⟨s1, s2⟩ := findSplit_safe (limit := gs * thr) hc hn
+    obtain ⟨⟨r0, s1⟩, s2⟩ := findSplit_safe (limit := gs * thr) hc hn
     cases hs : findSplit cur new (gs * thr) with
-    | error e =>
-      simp only
-      refine ⟨?_, fun c hit h => by cases h⟩
-      intro h; injection h with h; subst h; exact s1 hs
+    | error e => rw [s1] at hs; cases hs
     | ok c0 =>
       simp only
       have hle := s2 c0 hs
@@ -139,34 +132,37 @@ theorem planLoop_safe {shape : List Nat} {thr Lnum den gst : Nat} {new : List (L
     (hden : 0 < den) :
     ∀ (orders : List (List Nat)) (cur : List (List Nat)) (first : Bool) (steps : List (List (List Nat))),
       AllStage shape cur → largestBlockSize cur * den ≤ Lnum →
-      planLoop thr Lnum den gst new cur first orders steps ≠ .error .raised
+      ∀ e, planLoop thr Lnum den gst new cur first orders steps = .error e → e = .oracle
   | [], cur, first, steps, _, _ => by
-    rw [planLoop]; split <;> simp
+    rw [planLoop]; split
+    · intro e h; cases h
+    · intro e h; injection h with h; exact h.symm
   | ord :: ords, cur, first, steps, hc, hfit => by
     rw [planLoop]
     split
-    · simp
+    · intro e h; cases h
     · obtain ⟨p1, p2⟩ := planPass_safe (thr := thr) (gs := estimateGraphSize cur new) (first := first) (ord := ord) hc hn hden hfit
       cases hp : planPass thr Lnum den new cur first (estimateGraphSize cur new) ord with
       | error e =>
         simp only
-        intro h; injection h with h; subst h; exact p1 hp
+        intro e' h; injection h with h; subst h; exact p1 e hp
       | ok p =>
         obtain ⟨chunks, hit⟩ := p
         simp only
         split
-        · simp
+        · intro e h; cases h
         · split
-          · simp
+          · intro e h; cases h
           · exact planLoop_safe hn hden ords chunks false _ (planPass_valid hc hn hp) (p2 chunks hit hp)
 
-/-- **the modelled `plan_rechunk` never raises** on valid chunkings of one shape (positive item size) -/
+/-- **the modelled `plan_rechunk` returns** on valid chunkings of one shape (positive item size): the only error left
+    is an observed candidate order that does not fit (`.oracle`) - it never raises, no fuel runs out -/
 theorem planRechunk_safe {shape : List Nat} {old new : List (List Nat)} {itemsize thr limitBytes : Nat}
     {orders : List (List Nat)} (ho : AllStage shape old) (hn : AllStage shape new) (hi : 0 < itemsize) :
-    planRechunk old new itemsize thr limitBytes orders ≠ .error .raised := by
+    ∀ e, planRechunk old new itemsize thr limitBytes orders = .error e → e = .oracle := by
   unfold planRechunk
   split
-  · simp
+  · intro e h; cases h
   · exact planLoop_safe hn hi orders old true [] ho
       (Nat.le_trans (Nat.le_max_left _ _) (Nat.le_max_right _ _))
 
